@@ -399,6 +399,13 @@ def mixing_sequences():
     seqs.append([("bch", f"mu=4,delta={d},info={i}", {"mu": 4, "delta": d, "info": i, "admissible": True}) for d, i in ((3, "left"), (5, "left"), (5, "right"), (3, "right"), (3, "left"))])
     seqs.append([("ldpc", "H=mix-a", {"H": T([[1, 1, 0, 1, 0, 0], [0, 1, 1, 0, 1, 0], [1, 0, 1, 0, 0, 1]])}), ("ldpc", "H=mix-b", {"H": T([[1, 1, 1, 0, 0, 0], [0, 0, 1, 1, 1, 0], [1, 0, 0, 0, 1, 1]])}),
                  ("ldpc", "H=mix-a", {"H": T([[1, 1, 0, 1, 0, 0], [0, 1, 1, 0, 1, 0], [1, 0, 1, 0, 0, 1]])})])
+    # long user matrices that agree on their first 64 columns and differ beyond (n = 72: past the width of a machine word), again A, B, A
+    A_ = [[1 if ((7 * r + 3 * c + (r * c) % 5) % 11) < 2 else 0 for c in range(64)] for r in range(8)]
+    eye = [[1 if c == r else 0 for c in range(8)] for r in range(8)]
+    dual = [[1 if c in (r, r - 1) else 0 for c in range(8)] for r in range(8)]
+    cyc_ = [[1 if c in (r, (r + 3) % 8) else 0 for c in range(8)] for r in range(8)]
+    lp = lambda nm, tail: ("ldpc", f"H=long-{nm}", {"H": T([a + t_ for a, t_ in zip(A_, tail)])})  # noqa: E731
+    seqs.append([lp("a", eye), lp("b", dual), lp("c", cyc_), lp("a", eye)])
     return seqs
 
 
